@@ -272,6 +272,25 @@ ADDED3 = {
 }
 for _k, _v in ADDED3.items():
     ADDED[_k] = ADDED.get(_k, "") + _v
+# fourth round (DESIGN.md 11.6, fourth table)
+ADDED4 = {
+    "C02": " The encoding model has a skewed ACL configuration (lists of different lengths), so a field bounded or encoded with another field's list shows.",
+    "C09": " The encoding model has a skewed ACL configuration (lists of different lengths).",
+    "C03": " An amplifier with every kind of scripted agent that draws (random, periodic with variance and several start nodes, red, probabilistic).",
+    "C04": " Instance runs drive an attacker's tool themselves (malicious traffic, which the process-relevant NMNE options count); a sibling with equal options is built, used and closed around A's steps.",
+    "C05": " Clause AbsentNeverSucceeds: a request addressed to a component that does not exist by the simulator's own component tables (whatever routes are registered) "
+           "is refused and changes nothing; directed histories address every request of an application after its uninstall.",
+    "C08": " A ninth topology: the hosts' gateway routes back out of the interface the packet arrived on (hairpin).",
+    "C10": " A third of the sharing graphs mixes learning and scripted agents.",
+    "C11": " Action maps without an always-permitted entry (every entry refused at once while the host is in a timed transition).",
+    "C14": " The database file itself is deleted inside the replayed behaviours; a file is followed by the harness' own lookup (live, else deleted last).",
+    "C15": " FileSystem.tla carries the node's power state: operations are refused while the node is not ON, the per-tick counters are zero at every tick start whatever "
+           "the power state; power requests are interleaved and hosts are declared OFF with files.",
+    "C18": " One radio channel registered under two frequency names (the model counts per channel).",
+    "C20": " The defaults block (top level and inside `simulation`) is part of the declared facts; probes with fractional link bandwidths.",
+}
+for _k, _v in ADDED4.items():
+    ADDED[_k] = ADDED.get(_k, "") + _v
 for _k, _v in ADDED.items():
     if _k in CHECKS:
         CHECKS[_k]["text"] = CHECKS[_k]["text"] + _v
